@@ -172,6 +172,13 @@ Theorem C12_failure_is_local :
 Proof. exact failure_is_local. Qed.
 Print Assumptions C12_failure_is_local.
 
+(* the rename table (os.rename -> Extractor.add_rename) an analysis starts with is empty whatever was
+   analysed before: per-extractor state, created fresh for every analysis.  With it C12_frame and
+   C12_sequence_independent cover scripts that rename and read files. *)
+Theorem C12_rename_table_fresh : forall st, start_renames st = [].
+Proof. exact rename_table_fresh. Qed.
+Print Assumptions C12_rename_table_fresh.
+
 (* a failing PEP 517 hook (or setup.py) is a metadata failure of that project, never a foreign exception *)
 Theorem C12_failure_is_metadata_failure :
   forall st p, o_escaped (fst (analyse st p)) = false.
